@@ -756,8 +756,14 @@ Fixpoint monitor_walk (known : list rule) (prev : option dump) (clean retryable 
   match ops, obs_l with
   | o :: ops', b :: obs' =>
       let ok_res := match o_res b with ROk => true | _ => false end in
+      (* the planned fault was hit: the implementation issued at least n writes *)
+      let fault_hit := match o with
+                       | OUpdate _ (Some (n, _)) w => (n <=? length w)%nat
+                       | _ => false
+                       end in
       let clean' := match o with
                     | ORetry _ _ => retryable && ok_res
+                    | OUpdate _ (Some _) _ => clean && ok_res     (* acknowledged: must be durable, fault or not *)
                     | _ => clean && is_fault_free o
                     end in
       let retryable' := match o, o_res b with
@@ -771,6 +777,7 @@ Fixpoint monitor_walk (known : list rule) (prev : option dump) (clean retryable 
         | OUpdate _ _ _, RErr _, Some p, Some l => dump_diff "C13:rejected-update-changed-" p l
         | ORetry _ _, RErr _, Some p, Some l => dump_diff "C13:rejected-update-changed-" p l
         | OUpdate _ _ _, ROk, _, Some l =>
+            (if fault_hit then ["C13:acknowledged-with-failed-write"] else []) ++
             monitor_index known l ++ monitor_coverage known l ++
             (if clean' then match o_reload b with
                             | Some r => dump_diff "C13:restart-loads-different-" l r
@@ -782,6 +789,8 @@ Fixpoint monitor_walk (known : list rule) (prev : option dump) (clean retryable 
                             | Some r => dump_diff "C13:retry-does-not-converge-" l r
                             | None => ["C13:restart-fails-after-retried-update"]
                             end else [])
+        | ORestart _, ROk, Some p, Some l =>
+            monitor_index known l ++ (if clean then dump_diff "C13:restart-changed-" p l else [])
         | ORestart _, ROk, _, Some l => monitor_index known l
         | ORestart _, RErr _, _, _ => if clean' then ["C13:initialize-fails-on-own-storage"] else []
         | _, _, _, _ => []
